@@ -1,4 +1,5 @@
 import PasetoModel.Token
+import PasetoModel.Asym
 /-! # C12 — nothing from an unauthenticated token is decoded, validated or reported
 Generic part over `SealedToken::unseal` (paseto-core/src/tokens.rs); the per-back-end part
 ("`V::unseal` returns `Ok` only if the MAC / signature verifies") is C02's acceptance
@@ -63,6 +64,44 @@ theorem later_errors_only_if_authentic {M : Type} (vU : Res Bytes) (dec : Bytes 
   · simp at h
   · simp at h
   · exact ⟨_, rfl⟩
+
+/-! ## per back end: caller code runs only on authenticated bytes -/
+
+/-- Local tokens, every back end: if the caller's decoder was invoked at all, the token's tag
+    equals the scheme's tag over exactly this key, header, nonce, ciphertext, footer and assertion
+    (so a wrong key, any corruption, a wrong assertion or a too-short token never reaches it),
+    and the bytes it saw are the decryption of that authenticated ciphertext. -/
+theorem decode_implies_authentic_local {M : Type} (b : Backend) (k payload f a ct : Bytes)
+    (dec : Bytes → Option M) (val : M → Res Unit)
+    (h : Event.decode ct ∈ (tokenUnseal (unsealLocal (localScheme b) (tokHdr b .localP) k payload f a) dec val).2) :
+    ∃ n c t, payload = n ++ c ++ t ∧ n.length = (localScheme b).nonceLen ∧ t.length = (localScheme b).tagLen ∧
+      t = (localScheme b).tag k (tokHdr b .localP) n c f a ∧ ct = (localScheme b).dec k n c := by
+  have := decode_only_after_unseal_ok _ dec val ct h
+  exact ((PM.unsealLocal_ok_iff _ _ _ _ _ _ _).mp this).2
+
+/-- Public tokens, every back end: the decoder is invoked only on a message whose signature of
+    the prescribed length verified over exactly these pieces. -/
+theorem decode_implies_authentic_public {M : Type} (b : Backend) (pk payload f a ct : Bytes)
+    (dec : Bytes → Option M) (val : M → Res Unit)
+    (h : Event.decode ct ∈ (tokenUnseal (unsealPublic (publicScheme b) (tokHdr b .publicP) pk payload f a) dec val).2) :
+    ∃ sig, payload = ct ++ sig ∧ sig.length = (publicScheme b).sigLen ∧
+      (publicScheme b).check pk (pae ((publicScheme b).pieces pk (tokHdr b .publicP) ct f a)) sig = .valid := by
+  have := decode_only_after_unseal_ok _ dec val ct h
+  exact ((PM.unsealPublic_ok_iff _ _ _ _ _ _ _).mp this).2
+
+/-- The error of a token that fails authentication is a claims (assertion refused), format or
+    cryptographic error — decided before and independently of any decoding. -/
+theorem auth_error_kinds_local (b : Backend) (k payload f a : Bytes) (e : Err)
+    (h : unsealLocal (localScheme b) (tokHdr b .localP) k payload f a = .err e) :
+    e = .claims ∨ e = .invalidToken ∨ e = .crypto := by
+  rcases unsealLocal_total (localScheme b) (tokHdr b .localP) k payload f a with ⟨m, hm⟩ | h1 | h1 | h1 <;>
+    rw [h] at * <;> simp_all
+
+theorem auth_error_kinds_public (b : Backend) (pk payload f a : Bytes) (e : Err)
+    (h : unsealPublic (publicScheme b) (tokHdr b .publicP) pk payload f a = .err e) :
+    e = .claims ∨ e = .invalidToken ∨ e = .crypto := by
+  rcases unsealPublic_total (publicScheme b) (tokHdr b .publicP) pk payload f a with ⟨m, hm⟩ | h1 | h1 | h1 <;>
+    rw [h] at * <;> simp_all
 
 /-! non-vacuity -/
 example : tokenUnseal (M := Nat) (.ok [1]) (fun _ => some 3) (fun _ => .ok ()) = (.ok 3, [.decode [1], .validate]) := rfl
